@@ -212,10 +212,220 @@ STD_CONTRACTS = {
 }
 
 
+# Analysis modes. All of them are faithful readings of the same MIR; they differ in how much of the program is *opened up*:
+#   inline_private: non-public functions that do not exist on the reference tree (extracted helpers) are analysed as part of
+#                   their callers; the reference tree's own functions - the ones the rules name - are never opened up;
+#   combinators:    std Option/Result combinators (map, ok_or_else, map_err, and_then, unwrap_or_else, transpose, ...) are executed
+#                   by their std contract - the interpreter forks on the variant exactly as the equivalent `match` would and runs
+#                   closure literals / constructor functions passed to them - instead of being kept as opaque calls.
+# The default (both off) is what the rules were written against; `check` re-decides a property in the other modes when the
+# default reading leaves obligations open, and a reading without open obligations decides the property.
+MODE = {'inline_private': False, 'combinators': False}
+
+
+def is_module_private(f):
+    """helpers private to their module (`fn`, `pub(self)`, `pub(in module)`): part of the function that calls them"""
+    return f.kind in ('fn', 'assoc') and bool(getattr(f, 'vis', None)) and f.vis.startswith('Restricted') and '::' in f.vis.split('~', 1)[-1] and len(f.blocks) < 80
+
+
+_BASELINE_FNS = {}
+
+
+def is_new_helper(f):
+    """a non-public function that does not exist on the reference tree (after renamed items have been mapped back): an extracted
+    helper. Functions the rules know by name (the reference tree's own items) are never opened up by this policy."""
+    if f.kind not in ('fn', 'assoc') or not getattr(f, 'vis', None) or f.vis == 'Public' or len(f.blocks) > 120:
+        return False
+    crate = getattr(f.facts, 'crate', None)
+    if crate not in _BASELINE_FNS:
+        try:
+            import json
+            import names
+            base = json.load(open(names.BASELINE))
+            for c, inv in base.items():
+                _BASELINE_FNS[c] = set(inv.get('fns', {}))
+        except Exception:
+            _BASELINE_FNS[crate] = None
+    known = _BASELINE_FNS.get(crate)
+    if known is None:
+        return False
+    return f.rawdef not in known and f.defp not in known
+
+
+OPT = 'core::option::Option'
+RES = 'core::result::Result'
+
+
+def _mk(adt, variant, *payload):
+    return ('agg', 'adt', adt, variant, tuple((str(i), x) for i, x in enumerate(payload)))
+
+
+def _mk_tuple(vals):
+    return ('agg', 'tuple', '', '', tuple((str(i), x) for i, x in enumerate(vals)))
+
+
+def _comb(adt, table):
+    """table: variant -> lambda(it, st, payload, args, ctx) yielding (state, result-or-None)"""
+    def h(it, st, args, fn, bb, frame, t, depth, site):
+        if not args:
+            return
+        ctx = (fn, bb, frame, t, depth, site)
+        for st2, var, pay in it._fork_variant(st, args[0], adt, fn, bb, frame):
+            f = table.get(var)
+            if f is None:
+                return
+            for out in f(it, st2, pay, args, ctx):
+                yield out
+    return h
+
+
+def _app(it, st, f, vals, ctx, wrap=None):
+    fn, bb, frame, t, depth, site = ctx
+    for st2, r in it._apply(st, f, vals, fn, bb, frame, t, depth, site):
+        if r is None:
+            yield st2, None
+        else:
+            yield st2, (wrap(r) if wrap else r)
+
+
+def _const(v):
+    def f(it, st, pay, args, ctx):
+        yield st, v(pay, args)
+    return f
+
+
+def _pass(adt, variant):
+    """an arm that hands the receiver's variant on unchanged: keep the receiver itself when it is not a literal aggregate (its
+    provenance - e.g. the early return of a `?` - is what rules label outcomes by)"""
+    def f(it, st, pay, args, ctx):
+        r = args[0]
+        if strip(r)[0] != 'agg':
+            yield st, r
+        elif pay is None:
+            yield st, _mk(adt, variant)
+        else:
+            yield st, _mk(adt, variant, pay)
+    return f
+
+
+COMBINATORS = {
+    'core::option::Option::map': _comb(OPT, {
+        'Some': lambda it, st, p, a, c: _app(it, st, a[1], [p], c, lambda r: _mk(OPT, 'Some', r)),
+        'None': _pass(OPT, 'None')}),
+    'core::option::Option::and_then': _comb(OPT, {
+        'Some': lambda it, st, p, a, c: _app(it, st, a[1], [p], c),
+        'None': _pass(OPT, 'None')}),
+    'core::option::Option::ok_or_else': _comb(OPT, {
+        'Some': _const(lambda p, a: _mk(RES, 'Ok', p)),
+        'None': lambda it, st, p, a, c: _app(it, st, a[1], [], c, lambda r: _mk(RES, 'Err', r))}),
+    'core::option::Option::ok_or': _comb(OPT, {
+        'Some': _const(lambda p, a: _mk(RES, 'Ok', p)),
+        'None': _const(lambda p, a: _mk(RES, 'Err', a[1]))}),
+    'core::option::Option::unwrap_or_else': _comb(OPT, {
+        'Some': _const(lambda p, a: p),
+        'None': lambda it, st, p, a, c: _app(it, st, a[1], [], c)}),
+    'core::option::Option::unwrap_or': _comb(OPT, {
+        'Some': _const(lambda p, a: p),
+        'None': _const(lambda p, a: a[1])}),
+    'core::option::Option::or_else': _comb(OPT, {
+        'Some': _pass(OPT, 'Some'),
+        'None': lambda it, st, p, a, c: _app(it, st, a[1], [], c)}),
+    'core::option::Option::map_or': _comb(OPT, {
+        'Some': lambda it, st, p, a, c: _app(it, st, a[2], [p], c),
+        'None': _const(lambda p, a: a[1])}),
+    'core::option::Option::map_or_else': _comb(OPT, {
+        'Some': lambda it, st, p, a, c: _app(it, st, a[2], [p], c),
+        'None': lambda it, st, p, a, c: _app(it, st, a[1], [], c)}),
+    'core::option::Option::is_some': _comb(OPT, {'Some': _const(lambda p, a: C(True)), 'None': _const(lambda p, a: C(False))}),
+    'core::option::Option::is_none': _comb(OPT, {'Some': _const(lambda p, a: C(False)), 'None': _const(lambda p, a: C(True))}),
+    'core::result::Result::map': _comb(RES, {
+        'Ok': lambda it, st, p, a, c: _app(it, st, a[1], [p], c, lambda r: _mk(RES, 'Ok', r)),
+        'Err': _pass(RES, 'Err')}),
+    'core::result::Result::map_err': _comb(RES, {
+        'Ok': _pass(RES, 'Ok'),
+        'Err': lambda it, st, p, a, c: _app(it, st, a[1], [p], c, lambda r: _mk(RES, 'Err', r))}),
+    'core::result::Result::and_then': _comb(RES, {
+        'Ok': lambda it, st, p, a, c: _app(it, st, a[1], [p], c),
+        'Err': _pass(RES, 'Err')}),
+    'core::result::Result::unwrap_or_else': _comb(RES, {
+        'Ok': _const(lambda p, a: p),
+        'Err': lambda it, st, p, a, c: _app(it, st, a[1], [p], c)}),
+    'core::result::Result::ok': _comb(RES, {'Ok': _const(lambda p, a: _mk(OPT, 'Some', p)), 'Err': _const(lambda p, a: _mk(OPT, 'None'))}),
+    'core::result::Result::err': _comb(RES, {'Ok': _const(lambda p, a: _mk(OPT, 'None')), 'Err': _const(lambda p, a: _mk(OPT, 'Some', p))}),
+    'core::result::Result::is_ok': _comb(RES, {'Ok': _const(lambda p, a: C(True)), 'Err': _const(lambda p, a: C(False))}),
+    'core::result::Result::is_err': _comb(RES, {'Ok': _const(lambda p, a: C(False)), 'Err': _const(lambda p, a: C(True))}),
+}
+
+
+def _transpose(it, st, args, fn, bb, frame, t, depth, site):
+    # Option<Result<T, E>> -> Result<Option<T>, E>
+    for st2, var, pay in it._fork_variant(st, args[0], OPT, fn, bb, frame):
+        if var == 'None':
+            yield st2, _mk(RES, 'Ok', _mk(OPT, 'None'))
+        else:
+            for st3, v2, p2 in it._fork_variant(st2, pay, RES, fn, bb, frame):
+                if v2 == 'Ok':
+                    yield st3, _mk(RES, 'Ok', _mk(OPT, 'Some', p2))
+                else:
+                    yield st3, _mk(RES, 'Err', p2)
+
+
+COMBINATORS['core::option::Option::transpose'] = _transpose
+
+def _as_ref(adt, mutable):
+    def h(it, st, args, fn, bb, frame, t, depth, site):
+        r = args[0] if args else ('unk', '')
+        if r[0] != 'ref':
+            return
+        lv = r[1]
+        try:
+            pointee = it._read_lv(st, lv)
+        except Exception:
+            return
+        for st2, var, pay in it._fork_variant(st, pointee, adt, fn, bb, frame):
+            if pay is None:
+                yield st2, _mk(adt, var)
+            else:
+                yield st2, _mk(adt, var, ('ref', (lv[0], lv[1] + (('dc', var), ('f', '0'))), mutable))
+    return h
+
+
+COMBINATORS['core::option::Option::as_ref'] = _as_ref(OPT, False)
+COMBINATORS['core::option::Option::as_mut'] = _as_ref(OPT, True)
+COMBINATORS['core::result::Result::as_ref'] = _as_ref(RES, False)
+COMBINATORS['core::result::Result::as_mut'] = _as_ref(RES, True)
+
+CF = 'core::ops::ControlFlow'
+
+
+def _branch(it, st, args, fn, bb, frame, t, depth, site):
+    # `?` on a value whose variant is already known on this path (it was built by a combinator above): no second decision
+    x = strip(args[0]) if args else ('unk', '')
+    if x[0] == 'agg' and x[1] == 'adt' and x[2] in (OPT, RES) and CF in it.facts.adts:
+        if x[3] in ('Some', 'Ok'):
+            yield st, _mk(CF, 'Continue', x[4][0][1])
+        elif x[2] == OPT:
+            yield st, _mk(CF, 'Break', _mk(OPT, 'None'))
+        else:
+            yield st, _mk(CF, 'Break', _mk(RES, 'Err', x[4][0][1]))
+
+
+COMBINATORS['<core::result::Result<T, E> as core::ops::Try>::branch'] = _branch
+COMBINATORS['<core::option::Option<T> as core::ops::Try>::branch'] = _branch
+
+
 class Interp:
-    def __init__(self, facts, inline=None, contracts=None, loop_bound=2, max_paths=20000, max_depth=3):
+    def __init__(self, facts, inline=None, contracts=None, loop_bound=2, max_paths=20000, max_depth=3, mode=None):
         self.facts = facts
-        self.inline = inline or (lambda callee_fn, depth, name: False)
+        self.mode = dict(MODE)
+        self.mode.update(mode or {})
+        user_inline = inline or (lambda callee_fn, depth, name: False)
+        self.user_inline = user_inline
+        if self.mode.get('inline_private'):
+            self.inline = lambda callee_fn, depth, name: bool(user_inline(callee_fn, depth, name)) or is_new_helper(callee_fn)
+            max_depth = max(max_depth, 4)
+        else:
+            self.inline = user_inline
         self.contracts = dict(STD_CONTRACTS)
         self.contracts.update(contracts or {})
         self.loop_bound = loop_bound
@@ -575,6 +785,90 @@ class Interp:
                     break
                 raise Unsupported('terminator %s in %s' % (k, fn.defp))
 
+    # ------------------------------------------------------------------ std combinators (mode 'combinators')
+    def _fork_variant(self, st, x, adt, fn, bb, frame):
+        """generator of (state, variant name, payload or None): the decision an equivalent `match x { .. }` would take"""
+        sx = strip(x)
+        if sx[0] == 'agg' and sx[1] == 'adt' and sx[2] == adt:
+            yield st, sx[3], (sx[4][0][1] if sx[4] else None)
+            return
+        a = self.facts.adts.get(adt)
+        if not a:
+            return
+        dv = ('discr', x, adt)
+        if sx[0] == 'call' and re.search(r'FromResidual<.*>>?::from_residual$', sx[1]) and adt in (OPT, RES):
+            # the value of `expr?`'s early return: the failure variant by construction
+            bad = 'None' if adt == OPT else 'Err'
+            d = [v['discr'] for v in a['variants'] if v['name'] == bad][0]
+            st.memo[dv] = d
+            yield st, bad, (('field', ('as', x, bad), '0') if adt == RES else None)
+            return
+        variants = [(v['discr'], v['name'], bool(v['fields'])) for v in a['variants']]
+        if dv in st.memo and isinstance(st.memo[dv], int):
+            variants = [v for v in variants if v[0] == st.memo[dv]]
+            record = False
+        else:
+            record = True
+        targets = [(v[0], None) for v in a['variants'] for v in [(v['discr'],)]]
+        for i, (d, nm, has_payload) in enumerate(variants):
+            s2 = st.copy() if i < len(variants) - 1 else st
+            if record:
+                s2.memo[dv] = d
+                s2.decisions.append(Decision(dv, d, fn, bb, frame, targets))
+            yield s2, nm, (('field', ('as', x, nm), '0') if has_payload else None)
+
+    def _apply(self, st, f, argvals, fn, bb, frame, t, depth, site):
+        """generator of (state, result or None): the value of calling `f(argvals..)` where f is a constructor function, a closure
+        literal (inlined) or something opaque"""
+        sf = strip(f)
+        if sf[0] == 'c' and isinstance(sf[1], tuple) and sf[1] and sf[1][0] == 'fn':
+            nm = sf[1][1]
+            last = nm.rsplit('::', 1)[-1]
+            if last in ('Some',) and 'option' in nm or nm.endswith('prelude::v1::Some'):
+                yield st, _mk(OPT, 'Some', *argvals)
+                return
+            if last in ('Ok', 'Err') and ('result' in nm or 'prelude' in nm):
+                yield st, _mk(RES, last, *argvals)
+                return
+            adt_path = nm.rsplit('::', 1)[0] if '::' in nm else nm
+            for cand, var in ((adt_path, last), (nm, last)):
+                a = self.facts.adts.get(cand)
+                if a and any(v['name'] == var for v in a['variants']):
+                    yield st, _mk(cand, var, *argvals)
+                    return
+            yield st, ('call', nm, tuple(argvals), site)
+            return
+        inner = sf
+        if inner[0] == 'ref':
+            try:
+                inner = self._read_lv(st, inner[1])
+            except Exception:
+                inner = sf
+        if inner[0] == 'agg' and inner[1] == 'closure' and inner[2] in self.facts.fns and depth < self.max_depth + 1:
+            target_fn = self.facts.fns[inner[2]]
+            selfarg = sf
+            want_ref = target_fn.locals[1]['ty'].startswith('&') if len(target_fn.locals) > 1 else False
+            if want_ref and sf[0] != 'ref':
+                selfarg = ('ref', (('ptr', ('tmpclosure', inner)), ()), False)
+                st.heap[(('ptr', ('tmpclosure', inner)), ())] = inner
+            if not want_ref and sf[0] == 'ref':
+                selfarg = inner
+            bind = [selfarg] + list(argvals)
+            nf = st.nframes
+            st.nframes += 1
+            for i in range(1, target_fn.arg_count + 1):
+                st.env[(nf, i)] = bind[i - 1] if i - 1 < len(bind) else ('unk', 'arg')
+            st.effects.append(Effect('inline_enter', 'closure', fn, bb, frame, t, len(st.decisions)))
+            for st2, outcome in self._exec(target_fn, nf, 0, st, depth + 1):
+                if outcome[0] == 'return':
+                    st2.effects.append(Effect('inline_exit', 'closure', fn, bb, frame, t, len(st2.decisions)))
+                    yield st2, outcome[1]
+                else:
+                    st2._outcome = outcome
+                    yield st2, None
+            return
+        yield st, ('call', 'core::ops::FnOnce::call_once', (f, _mk_tuple(argvals)), site)
+
     def _is_exhaustive(self, v, vals, fn, t):
         """switch targets cover all possible values (bool: {0,1}; enum discriminant: all variants)"""
         ty = t.get('on_ty')
@@ -616,6 +910,15 @@ class Interp:
                 if r is not None:
                     yield st, r
                     return
+        if self.mode.get('combinators'):
+            h = COMBINATORS.get(name)
+            if h is not None:
+                handled = False
+                for st2, r in h(self, st, args, fn, bb, frame, t, depth, site):
+                    handled = True
+                    yield st2, r
+                if handled:
+                    return
         # inlining of local callee bodies
         target_fn = None
         bind = None
@@ -647,6 +950,8 @@ class Interp:
                     spread = [('field', args[1], str(i)) for i in range(target_fn.arg_count - 1)]
                 bind = [selfarg] + spread
         if target_fn is not None and depth < self.max_depth and self.inline(target_fn, depth, name):
+            if not self.user_inline(target_fn, depth, name):
+                eff.kind = 'call_inlined'      # an extracted helper opened up by the analysis mode: its body's effects follow, the call itself is not an effect
             nf = st.nframes
             st.nframes += 1
             for i in range(1, target_fn.arg_count + 1):
